@@ -1,3 +1,4 @@
+mod e1;
 mod e2;
 mod tables;
 mod util;
@@ -16,7 +17,8 @@ fn main() {
             util::quiet_panics();
             let mut rec = Recorder::new(outdir);
             let mut rng = Rng::new(seed);
-            match engine {
+            let r = std::panic::catch_unwind(std::panic::AssertUnwindSafe(|| match engine {
+                "octet" => e1::octet(&mut rec, &mut rng, thorough),
                 "wire" => e2::wire(&mut rec, &mut rng, thorough),
                 "otinew" => e2::oti_new(&mut rec, &mut rng, thorough),
                 "partition" => e2::partition(&mut rec, &mut rng, thorough),
@@ -26,6 +28,11 @@ fn main() {
                     eprintln!("unknown engine {engine}");
                     std::process::exit(2);
                 }
+            }));
+            if r.is_err() {
+                // every call into the crate is guarded; reaching this means the crate panicked
+                // somewhere the property promises it does not (recorded, never swallowed)
+                rec.impl_violation(format!("engine {engine} aborted: the implementation panicked outside a guarded call after {} requests", rec.n));
             }
             rec.finish(outdir);
         }
